@@ -644,6 +644,74 @@ func PackageVC(w *World, prop string) *FnVC {
 		vc.Obls = append(vc.Obls, &Obligation{Name: "package/confined:" + cf[0], Class: "confined", Props: props, Func: "package ice",
 			Desc: fmt.Sprintf("%s stores no package-level variable other than {%s} on any path (transitive mod-set, %d heaps)", cf[0], cf[1], len(w.modsets[fn])), Pos: cf[3], Guard: True, Goal: True, Claimed: true})
 	}
+	// inventory of shared mutable state: every package-level variable is on the reviewed list
+	for _, gl := range w.Spec.Globals {
+		props := strings.Split(gl[1], ",")
+		if !hasProp(props, prop) {
+			continue
+		}
+		allowed := map[string]bool{}
+		for _, a := range strings.Fields(gl[0]) {
+			allowed[a] = true
+		}
+		n := 0
+		for _, name := range w.TPkg.Scope().Names() {
+			if v, ok := w.TPkg.Scope().Lookup(name).(*types.Var); ok {
+				n++
+				if !allowed[name] {
+					vc.Obls = append(vc.Obls, &Obligation{Name: "package/globals:" + name, Class: "inventory", Props: props, Func: "package ice",
+						Desc: fmt.Sprintf("package-level variable %s (%s) is not on the reviewed list of shared state", name, v.Type()), Pos: gl[2], Guard: True, Goal: False, Claimed: true})
+				}
+			}
+		}
+		vc.Obls = append(vc.Obls, &Obligation{Name: "package/globals", Class: "inventory", Props: props, Func: "package ice",
+			Desc: fmt.Sprintf("the package declares no package-level variable outside the reviewed list (%d variables)", n), Pos: gl[2], Guard: True, Goal: True, Claimed: true})
+	}
+	// inventory of range-over-map loops (iteration order is unspecified) in the code reachable from a root
+	for _, mr := range w.Spec.MapRanges {
+		props := strings.Split(mr[2], ",")
+		if !hasProp(props, prop) {
+			continue
+		}
+		want := map[string]int{}
+		for _, kv := range strings.Fields(mr[1]) {
+			if i := strings.LastIndex(kv, "="); i > 0 {
+				k := 0
+				fmt.Sscanf(kv[i+1:], "%d", &k)
+				want[kv[:i]] = k
+			}
+		}
+		got := map[string]int{}
+		for f := range w.reachFrom([]string{mr[0]}) {
+			for _, b := range f.Blocks {
+				for _, ins := range b.Instrs {
+					if r, ok := ins.(*ssa.Range); ok {
+						if _, isMap := r.X.Type().Underlying().(*types.Map); isMap {
+							got[w.FnName(f)]++
+						}
+					}
+				}
+			}
+		}
+		var names []string
+		for k := range got {
+			names = append(names, k)
+		}
+		for k := range want {
+			if _, ok := got[k]; !ok {
+				names = append(names, k)
+			}
+		}
+		sort.Strings(names)
+		for _, k := range names {
+			if got[k] != want[k] {
+				vc.Obls = append(vc.Obls, &Obligation{Name: "package/mapranges:" + k, Class: "inventory", Props: props, Func: "package ice",
+					Desc: fmt.Sprintf("%s has %d range-over-map loops, the reviewed inventory says %d (iteration order must not reach the output)", k, got[k], want[k]), Pos: mr[3], Guard: True, Goal: False, Claimed: true})
+			}
+		}
+		vc.Obls = append(vc.Obls, &Obligation{Name: "package/mapranges:" + mr[0], Class: "inventory", Props: props, Func: "package ice",
+			Desc: fmt.Sprintf("range-over-map loops reachable from %s match the reviewed inventory (%d functions)", mr[0], len(names)), Pos: mr[3], Guard: True, Goal: True, Claimed: true})
+	}
 	seen := map[string]bool{}
 	for _, gi := range w.Spec.GlobalInvs {
 		toks, _ := lexSpec(gi[0])
